@@ -94,11 +94,15 @@ def rat_search(chk, theorem, binary, index, idx_deps, trials=80):
     def num():
         k = rng.choice([0, 1, -1, 2, -2, 3, 5, -7, 1, 2, 3])
         return "(%d : Rat)" % k if rng.random() < 0.8 else "((%d : Rat) / 2)" % k
+    def is_var(ty):
+        t = ty.replace("α", "").strip()
+        return ty == "α → α" or ty == "α" or t in troute.ARITY
+    if any((not is_var(ty)) and not n.startswith("h") for n, ty in params):
+        return None                       # a binder that is neither data nor a hypothesis: not evaluable
+    params = [(n, ty) for (n, ty) in params if is_var(ty)]   # hypotheses dropped
     names, tys, fixed = [], [], {}
     for n, ty in params:
         t = ty.replace("α", "").strip()
-        if n.startswith("h"):
-            continue                      # hypothesis
         if ty == "α → α":
             fixed[n] = {"sin": "ratSin", "cos": "ratCos", "acos": "ratAcos", "sqrt": "ratSqrt"}.get(n)
             if fixed[n] is None:
@@ -124,7 +128,7 @@ def rat_search(chk, theorem, binary, index, idx_deps, trials=80):
                 k = troute.ARITY[t].count("%s")
                 vs.append(troute.ARITY[t] % tuple(num() for _ in range(k)))
         cases.append(vs)
-    allp = [(n, ty) for (n, ty) in params if not n.startswith("h")]
+    allp = params
     decl = " ".join("(%s : %s)" % (n, ("Rat → Rat" if ty == "α → α" else "Rat" if ty == "α" else ty.replace("α", "Rat"))) for n, ty in allp)
     lines = ["import %s" % i for i in IMPORTS] + ["open %s" % " ".join(OPENS), PRELUDE,
              "def stmtHolds %s : Bool := decide (%s)" % (decl, stmt)]
@@ -163,6 +167,26 @@ def rat_search(chk, theorem, binary, index, idx_deps, trials=80):
             "evaluated_at": "Rat (sin x := 2x/(1+x²), cos x := (1−x²)/(1+x²), sqrt := exact rational root, tmin := 0), "
                             "with the Gen definitions regenerated from the current tree",
             "real_code_at_double(real sin/cos)": real, "falsified_cases": len(bad)}
+
+
+def gen_defs():
+    """{function name: definition text} of the C09 Gen modules currently installed"""
+    out = {}
+    for mod in ("C09Mat", "C09Frame", "C09Up"):
+        p = os.path.join(troute.GEN, mod + ".lean")
+        if not os.path.exists(p):
+            continue
+        for m in re.finditer(r"^def (\S+) .*?(?=^/-- extracted|^end ImathVerif)", open(p).read(), re.S | re.M):
+            out[m.group(1)] = m.group(0)
+    return out
+
+
+# which theorems (name prefixes) speak about an extracted function, directly or through the lemmas
+DEPENDS = {"Frame.alignZAxisWithTargetDir": ["alignZAxisWithTargetDir", "rotationMatrixWithUpDir"],
+           "Frame.rotationMatrixWithUpDir": ["rotationMatrixWithUpDir"], "Frame.quatSetRotation": ["rotationMatrix_"],
+           "Frame.quatToMatrix44": ["rotationMatrix_"], "Frame.rotationMatrix": ["rotationMatrix_"],
+           "Frame.computeLocalFrame": ["computeLocalFrame"], "Frame.firstFrame": ["firstFrame"], "Frame.lastFrame": ["lastFrame"],
+           "Frame.nextFrame": ["nextFrame"], "Frame.addOffset": ["addOffset"]}
 
 
 def run_residue(chk, binary, n):
@@ -233,6 +257,7 @@ def run(chk):
     leaf_idx = os.path.join(troute.GEN, "index_leaf.txt")
     c09_idx = os.path.join(troute.GEN, "index_c09.txt")
     index, state = [], {}
+    before = gen_defs()
     if bins.get("sym_leaf") and bins.get("sym_c09") and bins.get("sym_c09up"):
         troute.regenerate(chk, bins["sym_leaf"], "leaf")
         index, _ = troute.regenerate(chk, bins["sym_c09"], "c09", idx_deps=[leaf_idx])
@@ -244,7 +269,28 @@ def run(chk):
         for d in index[:3] + index[-4:] + index2:
             chk.sample({"entry": d["name"], "paths": d.get("paths")})
 
+    after = gen_defs()
+    changed = sorted(f for f in after if before.get(f) != after[f]) if before else []
+    if changed:
+        chk.extra["gen_functions_changed_since_last_run"] = changed
+    budget = {"left": 16}
+
+    def relevant(name):
+        """with a known set of changed functions, search only the theorems that speak about them"""
+        if not changed:
+            return True
+        src = open(os.path.join(lib.LEAN, *PROPS.split(".")) + ".lean").read()
+        pt = parse(os.path.join(lib.LEAN, *PROPS.split(".")) + ".lean", name)
+        stmt = pt[1] if pt else ""
+        for f in changed:
+            if ("Gen." + f) in stmt or any(name.startswith(pre) for pre in DEPENDS.get(f, [])):
+                return True
+        return False
+
     def search(name):
+        if not relevant(name) or budget["left"] <= 0:
+            return None
+        budget["left"] -= 1
         # 1. algebraic statements: evaluate at Rat and replay on the real code
         try:
             rep = rat_search(chk, name, bins.get("sym_c09"), index, [leaf_idx])
